@@ -21,11 +21,12 @@ type c19Spec struct {
 	PreRelax []bool     `json:"relaxed_by_operator"`
 	Ghost    bool       `json:"unregistered_host_in_registry"`
 	FailEach int        `json:"fail_every_nth_settings_statement"`
-	Event    string     `json:"event"` // steady converge diverge operator_enable operator_disable switch_to_lagging switch_from offline_by_lag
+	Event    string     `json:"event"` // steady converge diverge operator_enable operator_disable switch_to_lagging switch_from offline_by_lag register_just_above_high
 	Stopped  int        `json:"replica_with_stopped_replication"`
+	Subject  int        `json:"subject_replica"` // register_just_above_high: which replica (the daemons start 0.7 s apart, so this varies the phase between its health checks and the manager's ticks)
 }
 
-var c19Events = []string{"steady", "converge", "diverge", "operator_enable", "operator_disable", "switch_to_lagging", "switch_from", "offline_by_lag"}
+var c19Events = []string{"steady", "converge", "diverge", "operator_enable", "operator_disable", "switch_to_lagging", "switch_from", "offline_by_lag", "register_just_above_high"}
 
 const (
 	c19High = 120.0
@@ -46,6 +47,14 @@ func c19Gen(seed int64, idx int) c19Spec {
 	}
 	if r.Intn(3) == 0 {
 		sp.FailEach = 2 + r.Intn(5)
+	}
+	if sp.Event == "register_just_above_high" {
+		// the first replica is clean, unregistered and not lagging until the event; no failing statements
+		sp.Subject = r.Intn(sp.N - 1)
+		sp.Lags[sp.Subject], sp.Reg[sp.Subject], sp.PreRelax[sp.Subject], sp.FailEach = fp(10), "none", false, 0
+		if sp.Stopped == sp.Subject {
+			sp.Stopped = -1
+		}
 	}
 	return sp
 }
@@ -93,6 +102,11 @@ func c19Run(u *Unit) {
 		var fmu sync.Mutex
 		nset := 0
 		w.Fault = func(c *world.StmtCtx) world.FaultAction {
+			if sp.Event == "register_just_above_high" && c.Class != "conn_init" && strings.HasPrefix(c.Caller, "mysync_") && c.Caller != "mysync_"+c.Host {
+				// a slow manager: every statement it sends to another host takes 50-200 ms, an iteration takes seconds, and
+				// the health records it read at the start are stale by the time it acts on them
+				return world.FaultAction{Kind: "delay", Delay: time.Duration(50*(1+u.Idx%4)) * time.Millisecond}
+			}
 			if sp.FailEach > 0 && (c.Class == "set_sync_binlog" || c.Class == "set_flush") {
 				fmu.Lock()
 				nset++
@@ -264,6 +278,32 @@ func c19Run(u *Unit) {
 			fileSwitch(sc, master, "", "manual", "switchover", "operator")
 		case "offline_by_lag":
 			setLag(0, fp(900)) // above offline_mode_enable_lag: taken offline and registered
+		case "register_just_above_high":
+			// a replica is registered while its lag is just above the high mark and falling: optimisation starts, and
+			// within one health-check interval the lag is below the mark again, while the newest health record may still
+			// show the settings from before the start
+			// repeated with varying phases between the replica's health checks and the manager's ticks
+			h := hosts[sp.Subject+1]
+			for cycle := 0; cycle < 10; cycle++ {
+				time.Sleep(time.Duration(s.Rng.Intn(5000)) * time.Millisecond)
+				setLag(sp.Subject, fp(122))
+				time.Sleep(5200 * time.Millisecond) // one health-check interval: every record shows the lag above the mark
+				t0 := time.Now()
+				s.ZK.Put("operator", NS+"/optimization_nodes/"+h, `{"status":""}`)
+				for i := 0; i < 120; i++ {
+					time.Sleep(250 * time.Millisecond)
+					v := 122 - 1.2*time.Since(t0).Seconds()
+					if v < 100 {
+						v = 100
+					}
+					setLag(sp.Subject, fp(v))
+					if _, tr := s.Cached("optimization_nodes/" + h); !tr && i > 8 {
+						break
+					}
+				}
+				setLag(sp.Subject, fp(10))
+			}
+			sc.Cover("registered-just-above-the-high-mark")
 		}
 		time.Sleep(70 * time.Second)
 		// a host whose lag is unknown or converged is restored and dropped (bounded: many iterations have passed)
@@ -314,9 +354,9 @@ func lagStr(l []*float64) string {
 }
 
 func init() {
-	register(&Prop{ID: "C19", Units: func(tier string) int { return tierN(tier, 240, 6400) }, Run: c19Run,
+	register(&Prop{ID: "C19", Units: func(tier string) int { return tierN(tier, 270, 6300) }, Run: c19Run,
 		Floor: func(string) []string {
-			return []string{"one-replica-optimizing", "registry-drop", "drop-of-unregistered-host", "promotion", "converged-or-unknown-lag-host"}
+			return []string{"one-replica-optimizing", "registry-drop", "drop-of-unregistered-host", "promotion", "converged-or-unknown-lag-host", "registered-just-above-the-high-mark"}
 		},
-		Rule: "scenario = 3-5 node cluster with per-replica lag around both marks {10,59,60,119,120,121,500}, a replica with stopped replication (unknown lag), initial registry entries (none / new / enabled, plus an unregistered host), settings already relaxed by the operator, every k-th settings statement failing, and an event (steady, lags converge, lags diverge, operator enables all, operator disables all, planned switchover to a lagging target, switchover from the master, replica taken offline by lag); oracles on ground truth: after every completed manager iteration that ran its sync at most one replica carries relaxed settings last written by mysync and none untracked, every registry drop by a daemon finds the host's settings equal to the master's (or the host unregistered), promotions find the target unrelaxed and unregistered, a freeze begins with no relaxed member, converged / unknown-lag hosts end restored and dropped; distinct by the cover tuple"})
+		Rule: "scenario = 3-5 node cluster with per-replica lag around both marks {10,59,60,119,120,121,500}, a replica with stopped replication (unknown lag), initial registry entries (none / new / enabled, plus an unregistered host), settings already relaxed by the operator, every k-th settings statement failing, and an event (steady, lags converge, lags diverge, operator enables all, operator disables all, planned switchover to a lagging target, switchover from the master, replica taken offline by lag, replica registered while its falling lag is just above the high mark under a slow manager whose health-record reads are stale when it acts); oracles on ground truth: after every completed manager iteration that ran its sync at most one replica carries relaxed settings last written by mysync and none untracked, every registry drop by a daemon finds the host's settings equal to the master's (or the host unregistered), promotions find the target unrelaxed and unregistered, a freeze begins with no relaxed member, converged / unknown-lag hosts end restored and dropped; distinct by the cover tuple"})
 }
